@@ -58,17 +58,20 @@ class _dtype_value_context:
             cls._global_half_value = half_value
 
     def __init__(self, float_value=None, double_value=None, half_value=None):
-        self._orig_float_value = self.__class__.value(torch.float)
-        self._instance_float_value = float_value if float_value is not None else self._orig_float_value
-        self._orig_double_value = self.__class__.value(torch.double)
-        self._instance_double_value = double_value if double_value is not None else self._orig_double_value
-        self._orig_half_value = self.__class__.value(torch.half)
-        self._instance_half_value = half_value if half_value is not None else self._orig_half_value
+        self._instance_float_value = float_value
+        self._instance_double_value = double_value
+        self._instance_half_value = half_value
+        # The values that are visible when the block is entered (not when the object is created); a stack, so that
+        # the same object can be entered again while it is active
+        self._orig_values = []
 
     def __enter__(
         self,
     ):
-        self.__class__._set_value(
+        cls = self.__class__
+        self._orig_values.append((cls._global_float_value, cls._global_double_value, cls._global_half_value))
+        # _set_value leaves the fields that were not given (None) at their current values
+        cls._set_value(
             self._instance_float_value,
             self._instance_double_value,
             self._instance_half_value,
@@ -77,9 +80,7 @@ class _dtype_value_context:
     def __exit__(self, *args):
         # Restore unconditionally: _set_value skips None, which would leak a value set over a None default
         cls = self.__class__
-        cls._global_float_value = self._orig_float_value
-        cls._global_double_value = self._orig_double_value
-        cls._global_half_value = self._orig_half_value
+        cls._global_float_value, cls._global_double_value, cls._global_half_value = self._orig_values.pop()
         return False
 
 
@@ -110,14 +111,17 @@ class _feature_flag:
         cls._state = state
 
     def __init__(self, state=True):
-        self.prev = self.__class__._state
         self.state = state
+        # The states that are visible when the block is entered (not when the object is created); a stack, so that
+        # the same object can be entered again while it is active
+        self._prev_states = []
 
     def __enter__(self):
+        self._prev_states.append(self.__class__._state)
         self.__class__._set_state(self.state)
 
     def __exit__(self, *args):
-        self.__class__._set_state(self.prev)
+        self.__class__._set_state(self._prev_states.pop())
         return False
 
 
@@ -133,16 +137,19 @@ class _value_context:
         cls._global_value = value
 
     def __init__(self, value):
-        self._orig_value = self.__class__.value()
         self._instance_value = value
+        # The values that are visible when the block is entered (not when the object is created); a stack, so that
+        # the same object can be entered again while it is active
+        self._orig_values = []
 
     def __enter__(
         self,
     ):
+        self._orig_values.append(self.__class__.value())
         self.__class__._set_value(self._instance_value)
 
     def __exit__(self, *args):
-        self.__class__._set_value(self._orig_value)
+        self.__class__._set_value(self._orig_values.pop())
         return False
 
 
@@ -211,16 +218,17 @@ class fast_pred_var(_feature_flag):
         cls._num_probe_vectors = value
 
     def __init__(self, state=True, num_probe_vectors=1):
-        self.orig_value = self.__class__.num_probe_vectors()
         self.value = num_probe_vectors
+        self._orig_values = []
         super().__init__(state)
 
     def __enter__(self):
+        self._orig_values.append(self.__class__.num_probe_vectors())
         self.__class__._set_num_probe_vectors(self.value)
         super().__enter__()
 
     def __exit__(self, *args):
-        self.__class__._set_num_probe_vectors(self.orig_value)
+        self.__class__._set_num_probe_vectors(self._orig_values.pop())
         return super().__exit__()
 
 
